@@ -8,6 +8,10 @@ Tie D: face data of `to_polyhedron()` (vs the model for Cfg.fixed and Cfg.upstre
 Tie P: exact-rational polyhedron / element volumes of the model vs the float kernels, on fresh objects.
 Oracle: the property on the real API: per element closed / own nodes / outward / equal volume; the four collapse
         patterns; every subset of inverted tets of small meshes; fresh-object volume >= 0.
+Stream `positive:prior-query:*` (inside the quantifier, reported through `fail`): the object is queried through the
+        public API before make_elements_positive() - calculate_element_volumes(return_abs_volume=True,
+        raise_negative_volume=False), i.e. the caller records "the absolute volume as before" on the same object, or the
+        signed variant - then the same clauses are checked (same nodes, same |V| as the recorded one, fresh-object volume >= 0).
 """
 import itertools
 from fractions import Fraction as F
@@ -34,7 +38,9 @@ RULE = ('(a) to_polyhedron: seeded geometric meshes (tet / hex / prism / pyr / m
         'hex+prism(+pyr) meshes in which a random subset of hexahedra is collapsed along one of the four edge pairs '
         '(01, 12, 23, 30), every pattern also alone on a single hex, plus a labelled stream of unknown patterns '
         '(ValueError expected); (c) make_elements_positive: every subset of inverted tets of 6-tet meshes '
-        '(2^6 subsets) and random subsets of larger tet meshes; non-trivial = storage order differs from ascending '
+        '(2^6 subsets) and random subsets of larger tet meshes, each also as a history "prior abs-volume query" '
+        '(calculate_element_volumes(return_abs_volume=True, raise_negative_volume=False) on the same object, then '
+        'make_elements_positive()) and "prior signed-volume query"; non-trivial = storage order differs from ascending '
         'ids (a), at least one degenerate hex (b), at least one inverted tet (c)')
 ASSUMPTIONS = [
     'volumes are evaluated on fresh objects (stored `volume` / `metric` entries are stale after '
@@ -350,13 +356,26 @@ def invert(m, subset, how):
     return m2
 
 
-def positive_real(m):
+PRIOR_QUERIES = {
+    # public queries made on the SAME object before make_elements_positive() (histories; the unchanged code recomputes the
+    # signed volumes inside make_elements_positive because it passes elements=self.elements down)
+    'abs-volume': dict(return_abs_volume=True, raise_negative_volume=False),
+    'signed-volume': dict(raise_negative_volume=False),
+}
+
+
+def positive_real(m, prior=None):
     fd = U.fresh(m)
     before = [float(x) for x in G.quiet(fd.calculate_element_volumes, raise_negative_volume=False)[:, 0]]
     fd = U.fresh(m)
+    recorded = None
+    if prior is not None:
+        recorded = [float(x) for x in G.quiet(fd.calculate_element_volumes, **PRIOR_QUERIES[prior])[:, 0]]
     G.quiet(fd.make_elements_positive)
     obs = {'before': before, 'ids': U.flat_ids(fd), 'conn': [[int(x) for x in r] for r in fd.elements.data],
            'block': [[int(x) for x in r] for r in fd.elements['tet'].data]}
+    if recorded is not None:
+        obs['prior'] = recorded
     m_after = {'nodes': m['nodes'], 'blocks': {'tet': list(zip(obs['ids'], obs['conn']))}, 'kind': 'after', 'order': m['order']}
     f2 = U.fresh(m_after)
     obs['fresh'] = [float(x) for x in G.quiet(f2.calculate_element_volumes, raise_negative_volume=False)[:, 0]]
@@ -381,6 +400,13 @@ def positive_oracle(ctx, m, obs, case):
         if abs(v1) != abs(v2) or not U.close(abs(obs['before'][k]), abs(obs['fresh'][k]), U.TOL_LINEAR * sc):
             ctx.fail('positive:abs-volume-changed', 'make_elements_positive() changed the absolute volume of an element', case, what)
             return
+        if 'prior' in obs:
+            # the absolute volume the caller recorded on the same object before the call
+            what['volume_recorded_before_on_the_same_object'] = obs['prior'][k]
+            if not U.close(abs(obs['prior'][k]), abs(obs['fresh'][k]), U.TOL_LINEAR * sc):
+                ctx.fail('positive:abs-volume-changed', 'the absolute volume of an element after make_elements_positive() differs from '
+                         'the one recorded on the same object before', case, what)
+                return
         if v2 < 0 or obs['fresh'][k] < -U.TOL_LINEAR * sc:
             ctx.fail('positive:still-negative', 'a freshly evaluated volume is negative after make_elements_positive()', case, what)
             return
@@ -406,14 +432,22 @@ def positive_correspond(ctx, m, obs, case):
             break
 
 
-def positive_case(ctx, m, subset, label):
+def positive_case(ctx, m, subset, label, prior=None):
     case = U.mesh_case(m, op='make_elements_positive', inverted=sorted(subset))
     key = ('pos', tuple(m['nodes']), tuple((e, tuple(c)) for e, c in m['blocks']['tet']))
+    if prior is not None:
+        # history: fd.calculate_element_volumes(**PRIOR_QUERIES[prior]) on the object, then fd.make_elements_positive()
+        case['prior_query'] = prior
+        key = key + (prior,)
     U.stage('make_elements_positive() / calculate_element_volumes()')
-    obs = U.guarded(ctx, case, key, positive_real, m)
+    obs = U.guarded(ctx, case, key, positive_real, m, prior)
     if obs is None:
         return
-    ctx.case(key, sample={**G.describe(m), 'op': 'make_elements_positive', 'inverted': len(subset)}, nontrivial=bool(subset))
+    sample = {**G.describe(m), 'op': 'make_elements_positive', 'inverted': len(subset)}
+    if prior is not None:
+        sample['prior_query'] = prior
+        ctx.count('positive:prior-query:' + prior)
+    ctx.case(key, sample=sample, nontrivial=bool(subset))
     ctx.count('positive:' + label)
     ctx.count('positive:order:' + m['order'])
     if ctx.driver is not None:
@@ -475,6 +509,21 @@ def run(ctx):
         n = len(m['blocks']['tet'])
         subset = {i for i in range(n) if rnd.random() < rnd.choice([.1, .5, .9])}
         positive_case(ctx, invert(m, subset, SWAPS[-1]), subset, 'random-subset')
+    # (c') the same with a prior public query on the same object (drawn after the streams above, so that their cases are
+    #      unchanged for a given seed): every subset of a 6-tet mesh after an abs-volume query, random subsets after either query
+    for rep in range(ctx.n(1, 3)):
+        m = G.gen_geometric(rnd, kind='tet', max_cells=1, voids=False, order=['shuf', 'desc', 'asc'][rep % 3])
+        n = len(m['blocks']['tet'])
+        how = SWAPS[-1] if rep == 0 else SWAPS[rep % len(SWAPS)]
+        for r in range(n + 1):
+            for subset in itertools.combinations(range(n), r):
+                positive_case(ctx, invert(m, set(subset), how), subset, 'prior-query:exhaustive-6-tets', prior='abs-volume')
+    for k in range(ctx.n(24, 400) * boost):
+        m = G.gen_geometric(rnd, kind='tet', max_cells=2 if ctx.quick else 3)
+        n = len(m['blocks']['tet'])
+        subset = {i for i in range(n) if rnd.random() < rnd.choice([.1, .5, .9])}
+        positive_case(ctx, invert(m, subset, SWAPS[-1]), subset, 'prior-query:random-subset',
+                      prior='abs-volume' if k % 3 else 'signed-volume')
     ctx.extra['p_tie'] = {'tolerance_centroid': U.TOL_CENTROID, 'tolerance_linear': U.TOL_LINEAR, 'scale': 'max|coordinate|^3'}
 
 
@@ -488,7 +537,7 @@ def replay(ctx, obj, record=False):
     elif op == 'resolve_degeneracy':
         degen_case(ctx, m, {int(k): v for k, v in inp.get('patterns', {}).items()})
     elif op == 'make_elements_positive':
-        positive_case(ctx, m, set(inp.get('inverted', [])), 'replay')
+        positive_case(ctx, m, set(inp.get('inverted', [])), 'replay', prior=inp.get('prior_query'))
     else:
         return {'fails': False, 'error': 'unknown op'}
     return {'op': op, 'describe': G.describe(m),
